@@ -127,6 +127,11 @@ pub trait Engine: Sync + Send {
     fn gen_tag(&self) -> Option<String> {
         None
     }
+    /// a sibling of the case — the same operand bits in another layout of the same width — used for the history check
+    /// (`eval_hist`): the library's functions are pure, so a call's result must not depend on the calls made before it
+    fn echo(&self, _prop: &str, _c: &Case) -> Option<Case> {
+        None
+    }
     /// targeted search (hill climbing on `Eval::score`): (generated samples per worker from which the starting points
     /// are chosen, climbs per worker); (0, 0) = the property has no score
     fn climb_budget(&self, _prop: &str, _tier: Tier) -> (u64, usize) {
@@ -225,6 +230,43 @@ pub struct Acc {
     pub climb_evals: u64,
     pub best_score: f64,
     pub best_case: Option<Value>,
+}
+
+/// another layout of the same width and signedness, chosen by `h`
+pub fn same_width_layout(lay: u16, h: u64) -> u16 {
+    if (lay as usize) >= NLAY {
+        return lay;
+    }
+    let l = L::from_idx(lay as usize);
+    let f2 = (l.f + 1 + (h % l.w as u64) as u32) % (l.w + 1);
+    L::new(l.signed, l.w, f2).idx() as u16
+}
+
+/// Evaluate a case and, for one case in 16 (decided by the case's own hash, so a replay does the same), check that
+/// the outcome does not depend on history: evaluate the engine's sibling case (same operand bits, another layout of the
+/// same width), then the case again. State kept between calls (a memo keyed by raw bits, a static scratch buffer) is
+/// invisible to single-call checks. Mismatches of the repeated evaluation are labelled `after-sibling-call:`.
+pub fn eval_hist<E: Engine + ?Sized>(e: &E, prop: &str, c: &Case, chk: bool, kf: &Kf) -> Eval {
+    let mut ev = e.eval(prop, c, chk, kf);
+    if !ev.fails.is_empty() || ev.skipped {
+        return ev;
+    }
+    let h = case_hash(c);
+    if h % 16 != 0 {
+        return ev;
+    }
+    if let Some(sib) = e.echo(prop, c) {
+        let ev2 = e.eval(prop, &sib, chk, kf);
+        for f in ev2.fails {
+            ev.fails.push(Fail { label: format!("sibling-call({}):{}", e.case_json(prop, &sib), f.label), got: f.got, want: f.want });
+        }
+        let ev3 = e.eval(prop, c, chk, kf);
+        for f in ev3.fails {
+            ev.fails.push(Fail { label: format!("after-sibling-call:{}", f.label), got: f.got, want: f.want });
+        }
+        ev.class("history(sibling call in another layout, then the case again)");
+    }
+    ev
 }
 
 fn case_hash(c: &Case) -> u64 {
@@ -380,7 +422,7 @@ fn proptest_pass<E: Engine + ?Sized>(
                 return Ok(());
             }
             let t_eval = Instant::now();
-            let ev = e.eval(&cfg.prop, &case, cfg.chk, kf);
+            let ev = eval_hist(e, &cfg.prop, &case, cfg.chk, kf);
             if t_eval.elapsed().as_millis() > 1500 && std::env::var_os("VERIF_SLOW").is_some() {
                 eprintln!("slow case ({} ms): {}", t_eval.elapsed().as_millis(), e.case_json(&cfg.prop, &case));
             }
@@ -399,7 +441,7 @@ fn proptest_pass<E: Engine + ?Sized>(
             Ok(()) => {}
             Err(TestError::Fail(_, case)) => {
                 // re-evaluate the minimal case to report its own mismatches
-                let ev = e.eval(&cfg.prop, &case, cfg.chk, kf);
+                let ev = eval_hist(e, &cfg.prop, &case, cfg.chk, kf);
                 let fails = if ev.fails.is_empty() { last_fails } else { ev.fails };
                 stop.store(true, Ordering::Relaxed);
                 return Some(Violation { case, fails, origin: "generated+shrunk".into() });
@@ -594,7 +636,7 @@ pub fn run<E: Engine + ?Sized>(e: &E, cfg: &RunCfg) -> RunResult {
         let mut reproduced = false;
         let mut profile_applies = true;
         if let Some(p) = ent.get("profile").and_then(|x| x.as_str()) {
-            profile_applies = (p == "chk") == cfg.chk || p == "both";
+            profile_applies = p == profile_name() || p == "both";
         }
         if let Some(ex) = ent.get("example") {
             let exprop = ex.get("prop").and_then(|x| x.as_str()).unwrap_or(prop).to_string();
@@ -617,7 +659,7 @@ pub fn run<E: Engine + ?Sized>(e: &E, cfg: &RunCfg) -> RunResult {
     let replays = load_replays(e, prop, &cfg.replay_dir);
     let replayed = replays.len() as u64;
     for (path, c) in &replays {
-        let ev = e.eval(prop, c, cfg.chk, &kf);
+        let ev = eval_hist(e, prop, c, cfg.chk, &kf);
         total.record(e, prop, c, &ev);
         if !ev.fails.is_empty() {
             violations.push(Violation { case: c.clone(), fails: ev.fails, origin: format!("replay {}", path) });
@@ -705,11 +747,11 @@ pub fn write_replay<E: Engine + ?Sized>(e: &E, cfg: &RunCfg, v: &Violation) -> S
     let _ = std::fs::create_dir_all(&dir);
     let cj = e.case_json(&cfg.prop, &v.case);
     let h = case_hash(&v.case);
-    let path = format!("{}/{}-{}-{:016x}.json", dir, cfg.prop, if cfg.chk { "chk" } else { "rel" }, h);
+    let path = format!("{}/{}-{}-{:016x}.json", dir, cfg.prop, profile_name(), h);
     let fails: Vec<Value> = v.fails.iter().map(|f| json!({"output": f.label, "got": f.got, "want": f.want})).collect();
     let doc = json!({
         "case": cj,
-        "profile": if cfg.chk { "chk" } else { "rel" },
+        "profile": profile_name(),
         "origin": v.origin,
         "mismatches": fails,
         "seed": cfg.seed,
@@ -726,13 +768,16 @@ pub fn partial_json<E: Engine + ?Sized>(e: &E, cfg: &RunCfg, r: &RunResult, repl
         .required_classes(&cfg.prop, cfg.tier)
         .into_iter()
         .filter(|c| r.acc.classes.get(c).copied().unwrap_or(0) == 0)
+        // a run with a reduced budget (the off-diagonal profiles) is additional to the full-budget runs of the same
+        // generators; generator health is judged on those
+        .filter(|_| cfg.scale >= 1.0)
         .collect();
     json!({
         "engine": e.name(),
         "property_id": cfg.prop,
         "tier": cfg.tier.name(),
         "seed": cfg.seed,
-        "profile": if cfg.chk { "chk" } else { "rel" },
+        "profile": profile_name(),
         "evaluations": r.acc.evaluations,
         "nontrivial_evaluations": r.acc.nontrivial_evals,
         "distinct_nontrivial": r.acc.distinct.len(),
@@ -759,12 +804,33 @@ pub fn partial_json<E: Engine + ?Sized>(e: &E, cfg: &RunCfg, r: &RunResult, repl
 /// `--prop ID --tier quick|thorough --seed N --out FILE --replay-dir DIR --kf FILE [--threads N] [--scale X]`
 /// `--replay FILE --kf FILE`
 pub fn main_with<E: Engine>(e: &E, chk: bool) -> i32 {
+    main_with2(e, chk, chk)
+}
+
+static PROFILE: std::sync::OnceLock<&'static str> = std::sync::OnceLock::new();
+/// name of the build profile of this binary: `chk` (debug assertions and overflow checks), `rel` (neither),
+/// `mxa` (overflow checks only), `mxb` (debug assertions only)
+pub fn profile_name() -> &'static str {
+    PROFILE.get().copied().unwrap_or("rel")
+}
+
+/// `da` / `oc`: whether the harness crates that follow the profile were compiled with debug assertions / overflow checks.
+/// Everything downstream only distinguishes "a checking profile" (any of the two on) from the non-checking one.
+pub fn main_with2<E: Engine>(e: &E, da: bool, oc: bool) -> i32 {
     crate::out::install_silent_panic_hook();
     let args: Vec<String> = std::env::args().collect();
     let get = |k: &str| -> Option<String> { args.iter().position(|a| a == k).and_then(|i| args.get(i + 1).cloned()) };
+    let is = match (da, oc) {
+        (true, true) => "chk",
+        (false, false) => "rel",
+        (false, true) => "mxa",
+        (true, false) => "mxb",
+    };
+    let _ = PROFILE.set(is);
+    let chk = is != "rel";
     if let Some(want) = get("--expect-profile") {
-        if (want == "chk") != chk {
-            eprintln!("binary was built with the wrong profile: expected {}, is {}", want, if chk { "chk" } else { "rel" });
+        if want != is {
+            eprintln!("binary was built with the wrong profile: expected {}, is {}", want, is);
             return 2;
         }
     }
@@ -822,10 +888,10 @@ pub fn main_with<E: Engine>(e: &E, chk: bool) -> i32 {
             let pe = crate::pair::PairEngine { inner: e, gen: prop.clone() };
             pe.eval("C11", &c, true, &kf)
         } else {
-            e.eval(&prop, &c, chk, &kf)
+            eval_hist(e, &prop, &c, chk, &kf)
         };
         let prop = if is_pair { "C11".to_string() } else { prop };
-        println!("replay {} profile={} case={}", file, if is_pair { "pair(chk vs rel)" } else if chk { "chk" } else { "rel" }, e.case_json(if is_pair { cj.get("prop").and_then(|x| x.as_str()).unwrap_or("") } else { &prop }, &c));
+        println!("replay {} profile={} case={}", file, if is_pair { "pair(checking vs rel)" } else { profile_name() }, e.case_json(if is_pair { cj.get("prop").and_then(|x| x.as_str()).unwrap_or("") } else { &prop }, &c));
         println!("  observed: {}", ev.note);
         for k in &ev.known {
             println!("KNOWN-FINDING: property={} matches {}", prop, k);
@@ -890,7 +956,7 @@ pub fn main_with<E: Engine>(e: &E, chk: bool) -> i32 {
     for v in &r.violations {
         let p = write_replay(e, &cfg, v);
         println!("VIOLATION property={} replay={}", prop, p);
-        println!("  profile={} origin={} case={}", if cfg.chk { "chk" } else { "rel" }, v.origin, e.case_json(&prop, &v.case));
+        println!("  profile={} origin={} case={}", profile_name(), v.origin, e.case_json(&prop, &v.case));
         for f in &v.fails {
             println!("  MISMATCH output={} got={} want={}", f.label, f.got, f.want);
         }
@@ -907,7 +973,7 @@ pub fn main_with<E: Engine>(e: &E, chk: bool) -> i32 {
         e.name(),
         prop,
         tier.name(),
-        if cfg.chk { "chk" } else { "rel" },
+        profile_name(),
         r.acc.evaluations,
         r.acc.distinct.len(),
         r.acc.layouts.len(),
